@@ -59,7 +59,12 @@ def gen_tree(rng: Rng) -> dict:
         for fn in rng.sample(FILE_NAMES, rng.randint(0, 3)):
             files[d + "/" + fn] = {"b64": b64(b"SELECT 1\n"), "mode": 0o644}
         if depth < 3:
-            for dn in rng.sample(DIR_NAMES, rng.randint(0, 2 if depth else 3)):
+            names = rng.sample(DIR_NAMES, rng.randint(0, 2 if depth else 3))
+            # sibling directories where one name is a string prefix of the other
+            for a_, b_ in (("a", "a1"), ("sub", "sub2"), ("models", "models_v2")):
+                if a_ in names and b_ not in names and rng.chance(0.5):
+                    names.append(b_)
+            for dn in names:
                 sub = d + "/" + dn
                 dirs.append(sub)
                 fill(sub, depth + 1)
